@@ -124,7 +124,7 @@ def same_slot(parts, a, b):
   return a is not None and b is not None and tuple(parts[a][:2]) == tuple(parts[b][:2])
 
 
-def judge(ctx, parts, f, r, route, order_desc, zero_below=None):
+def judge(ctx, parts, f, r, route, order_desc, zero_below=None, default=0.0):
   """Returns the index of the range that supplied the value (or None) after checking it."""
   try:
     v, d1, d2 = f(r), f.deriv(r), f.deriv2(r)
@@ -138,8 +138,8 @@ def judge(ctx, parts, f, r, route, order_desc, zero_below=None):
   if zero_below is not None and r <= zero_below:
     cand = []
   if not cand:
-    if not (v == 0 and d1 == 0 and d2 == 0):
-      ctx.violation("below_first_range", "r=%r below every range: value=%r deriv=%r deriv2=%r (route %s, order %s)" % (r, v, d1, d2, route, order_desc), what="below_first_range")
+    if not (v == default and d1 == 0 and d2 == 0):
+      ctx.violation("below_first_range", "r=%r below every range: value=%r deriv=%r deriv2=%r, expected %r 0 0 (route %s, order %s)" % (r, v, d1, d2, default, route, order_desc), what="below_first_range")
     return None
   hits = []
   for i in cand:
@@ -191,15 +191,33 @@ def run_case(case, ctx):
   nf0 = len(_contracts.failures)
   winners = {}
   # ---------------- API route
-  for perm in perms:
+  for pi_, perm in enumerate(perms):
     defs = [Multi_Range_Defn(parts[i][0], parts[i][1], pf.polynomial(*parts[i][2])) for i in perm]
-    f = create_Multi_Range_Potential_Form(*defs)
+    # the documented default_value keyword (returned below the first range; 0.0 unless given), by keyword at
+    # construction, through the class itself, or assigned afterwards
+    dflt = 0.0
+    if pi_ % 4 == 1:
+      dflt = 7.25
+      f = create_Multi_Range_Potential_Form(*defs, default_value=dflt)
+      ctx.cls("default_value:keyword")
+    elif pi_ % 4 == 2:
+      from atsim.potentials._multi_range_potential_form import Multi_Range_Potential_Form_Deriv2
+      dflt = -3.5
+      f = Multi_Range_Potential_Form_Deriv2(*defs, default_value=dflt)
+      ctx.cls("default_value:class_constructor")
+    elif pi_ % 4 == 3:
+      f = create_Multi_Range_Potential_Form(*defs)
+      dflt = 11.0
+      f.default_value = dflt
+      ctx.cls("default_value:assigned")
+    else:
+      f = create_Multi_Range_Potential_Form(*defs)
     if not (hasattr(f, "deriv") and hasattr(f, "deriv2")):
       ctx.violation("hasattr", "multi-range of analytic forms offers no deriv/deriv2", what="hasattr")
       return
     ctx.count("orders_checked")
     for r in eval_orders(pts, rng):
-      w = judge(ctx, parts, f, r, "api", list(perm))
+      w = judge(ctx, parts, f, r, "api", list(perm), default=dflt)
       if w in ("err", "bad"):
         return
       if winners.setdefault(r, w) != w and not same_slot(parts, w, winners[r]):
